@@ -68,7 +68,8 @@ def profile(prop):
         p["ops"].update(reject_all=5, add=8, remove=4, reject_some=0, edit_restore=3)
         p["session"].update(ro=1.5, stale=0.8)
         p["n_choices"] = [14, 14, 2, 3, 5, 9, 16, 20]
-        p["init"].update(foreign_hole=0.6)
+        p["init"].update(foreign_hole=0.6, foreign_noncompact=2.5)
+        p["fullcomment"] = 0.25  # entries that cannot be written back, in tables whose order is not the storage order
         p["dup_add"] = 0.15
         p["absent_rm"] = 0.12
     elif prop == "C08":
